@@ -611,6 +611,35 @@ inline BasisReport check_basis(const GraphSpec &s, const typename BG<W>::Graph &
     return R;
 }
 
+
+// ------------------------------------------------------------------------------------------------
+// A POSITIONAL output iterator (like an iterator into a pre-sized vector, unlike a back_inserter): copies keep their own
+// position, so an algorithm that emits in several phases must carry its advanced iterator along.  Writes are bounds-checked
+// and counted per slot instead of being undefined behaviour.
+// ------------------------------------------------------------------------------------------------
+template<class Cycle>
+struct SlotSink {
+    std::vector<Cycle> slots; std::vector<int> writes; long overflow = 0;
+    explicit SlotSink(size_t capacity) : slots(capacity), writes(capacity, 0) {}
+    struct It {
+        SlotSink *s; size_t pos;
+        typedef std::output_iterator_tag iterator_category; typedef void value_type; typedef void difference_type; typedef void pointer; typedef void reference;
+        It& operator*() { return *this; } It& operator++() { ++pos; return *this; } It operator++(int) { It t = *this; ++pos; return t; }
+        It& operator=(const Cycle &c) { if (pos < s->slots.size()) { s->slots[pos] = c; s->writes[pos]++; } else s->overflow++; return *this; }
+    };
+    It begin() { return It{this, 0}; }
+    // the cycles as the caller of a positional iterator sees them: slots 0..expected-1; returns a description of misuse or ""
+    std::string collect(size_t expected, std::list<Cycle> &out) const {
+        std::string err;
+        if (overflow) err = std::to_string(overflow) + " cycle(s) written beyond the " + std::to_string(slots.size()) + " slots handed out";
+        for (size_t i = 0; i < slots.size(); i++) {
+            if (i < expected) { out.push_back(slots[i]); if (writes[i] != 1 && err.empty()) err = "output position " + std::to_string(i) + " was written " + std::to_string(writes[i]) + " times (each position must be written exactly once)"; }
+            else if (writes[i] != 0 && err.empty()) err = "output position " + std::to_string(i) + " beyond the m-n+c expected cycles was written";
+        }
+        return err;
+    }
+};
+
 // ------------------------------------------------------------------------------------------------
 // protocol helpers (stdout, line oriented):  B <idx> / E <idx> <json> / S <json> / X <json>
 // ------------------------------------------------------------------------------------------------
